@@ -27,10 +27,11 @@ class RtRegistry:
         }
         files = sorted(glob.glob(os.path.join(HERE, "contracts", "*.py")))
         files.sort(key=lambda p: (0 if os.path.basename(p).startswith("00_") else 1, p))
+        g = dict(api)
         for p in files:
             if os.path.basename(p).startswith(("harness_", "_")):
                 continue
-            exec(compile(open(p).read(), p, "exec"), dict(api))
+            exec(compile(open(p).read(), p, "exec"), g)
         return self
 
     def _contract(self, target, **kw):
@@ -87,6 +88,13 @@ class _Tr(ast.NodeTransformer):
             return ast.Call(func=ast.Name(id="_oldv", ctx=ast.Load()), args=[node], keywords=[])
         return node
 
+    def visit_Attribute(self, node):
+        node = self.generic_visit(node)
+        if node.attr == "state" and isinstance(node.ctx, ast.Load):
+            # Individual.State is an Enum; the contracts use its integer values
+            return ast.Call(func=ast.Name(id="_enumval", ctx=ast.Load()), args=[node], keywords=[])
+        return node
+
     def visit_Compare(self, node):
         node = self.generic_visit(node)
         if len(node.ops) == 1 and isinstance(node.ops[0], (ast.Is, ast.IsNot)):
@@ -98,6 +106,71 @@ class _Tr(ast.NodeTransformer):
                 return ast.UnaryOp(op=ast.Not(), operand=call)
             return call
         return node
+
+
+_ATOMIC = (int, float, str, bool, bytes, type(None), complex)
+
+
+def _snap(o, memo, depth=0):
+    """structural deep copy that never pickles: containers and plain objects are copied, everything else (locks, loggers,
+    modules, functions, db connections) is shared"""
+    import enum
+    import types
+    if isinstance(o, _ATOMIC) or isinstance(o, (enum.Enum, type, types.FunctionType, types.MethodType, types.ModuleType)):
+        return o
+    oid = id(o)
+    if oid in memo:
+        return memo[oid]
+    mod = type(o).__module__ or ""
+    if mod.startswith(("logging", "threading", "_thread", "sqlite3", "joblib")):
+        memo[oid] = o
+        return o
+    if isinstance(o, list):
+        c = []
+        memo[oid] = c
+        c.extend(_snap(x, memo, depth + 1) for x in o)
+        return c
+    if isinstance(o, tuple):
+        c = tuple(_snap(x, memo, depth + 1) for x in o)
+        memo[oid] = c
+        return c
+    if isinstance(o, dict):
+        c = {}
+        memo[oid] = c
+        for k, v in o.items():
+            c[k] = _snap(v, memo, depth + 1)
+        return c
+    if isinstance(o, set):
+        c = set(o)
+        memo[oid] = c
+        return c
+    if mod.startswith("numpy"):
+        try:
+            c = o.copy()
+        except Exception:
+            c = o
+        memo[oid] = c
+        return c
+    if hasattr(o, "__dict__") and not isinstance(o, type):
+        try:
+            c = object.__new__(type(o))
+        except Exception:
+            memo[oid] = o
+            return o
+        memo[oid] = c
+        for k, v in vars(o).items():
+            try:
+                object.__setattr__(c, k, _snap(v, memo, depth + 1))
+            except Exception:
+                pass
+        return c
+    memo[oid] = o
+    return o
+
+
+def _round_dec(x, n):
+    import numpy as np
+    return float(np.round(x, decimals=int(n)))
 
 
 def _ranges(n, rest):
@@ -133,6 +206,7 @@ class Evaluator:
             "allocated_before": lambda x: True, "is_none": lambda x: x is None,
             "unchanged": self._unchanged, "real": float, "seqsum": lambda l, lo=0, hi=None: math.fsum(list(l)[lo:hi]),
             "fdiv": lambda a, b: a / b, "math": math, "inf": math.inf,
+            "_enumval": lambda v: getattr(v, "value", v), "round_dec": _round_dec,
         }
         env.update(self.extra)
         for name in self.reg.macros:
@@ -207,7 +281,7 @@ class Evaluator:
             collect(v, seen)
         self.pre.clear()
         for k, v in args.items():
-            self.pre[k] = copy.deepcopy(v, self.memo)
+            self.pre[k] = _snap(v, self.memo)
         self.canon = {}
         for oid, cp in list(self.memo.items()):
             if oid in originals:
